@@ -168,6 +168,18 @@ def check_call_sites(R):
                 order.append(ast.unparse(n))
     want = 'validate_credentials_secret_name_input(hail_credentials_secret_name)'
     ok = want in order and '_insert()' in order and order.index(want) < order.index('_insert()')
+    if ok:
+        # path-based: every path that reaches `_insert()` ran the validator on the secret name, or the name is None
+        # ("not provided"); a guard such as `if hail_credentials_secret_name:` lets '' through unvalidated
+        wv = pathsym.Walker(fn, lambda n: isinstance(n, ast.Call) and ast.unparse(n) == want)
+        ev_v = wv.walk()
+        wi = pathsym.Walker(fn, lambda n: isinstance(n, ast.Call) and ast.unparse(n) == '_insert()')
+        ev_i = wi.walk()
+        validated = z3.Or(*[pc for _n, pc in ev_v]) if ev_v else z3.BoolVal(False)
+        is_none = z3.Bool('hail_credentials_secret_name is None')
+        for _n, pc in ev_i:
+            if pathsym.implies(pc, z3.Or(validated, is_none)) != 'unsat':
+                ok = False
     inner = pathsym.find_function(fn, '_insert')
     w2 = pathsym.Walker(inner, pathsym.is_call_to('execute_insertone'))
     ev2 = w2.walk()
